@@ -137,11 +137,11 @@ def make_case(rng, bytes_mode):
     return tmpl, pa, hargs, keys
 
 
+# (widths between 2^31 and 2^63 are not generated: the reference accepts them and builds a string of that size)
 def bad_templates(rng, n, bytes_mode):
     alpha = "%()#0-+ *.123hlLdiouxXeEfFgGcrsayzb!" + ("" if bytes_mode else "é")
     out = ["%", "%(", "%(a", "%(a)", "%5", "%.", "%.5", "%#", "%l", "%y", "abc%", "%%%", "% ", "%(a)(b)s", "%((a)s", "%(a))s", "%5.5.5d", "%**d", "%*.*", "%1$d", "%-", "%0",
-           "%99999999999999999999d", "%.99999999999999999999d", "%.2147483648d", "%.2147483649f", "%.2147483648s", "%.2147483649s", "%.21474836480d", "%.4294967296s", "%9223372036854775808d", "%#.2147483648x", "%5.2147483649d",
-           # (widths between 2^31 and 2^63 are not generated: the reference accepts them and builds a string of that size) "%hhd", "%lld", "%ls", "%q", "%5y", "abc%zdef", "%(k)y", "%\n", "%é" if not bytes_mode else "%~"]
+           "%99999999999999999999d", "%.99999999999999999999d", "%.2147483648d", "%.2147483649f", "%.2147483648s", "%.2147483649s", "%.21474836480d", "%.4294967296s", "%9223372036854775808d", "%#.2147483648x", "%5.2147483649d", "%hhd", "%lld", "%ls", "%q", "%5y", "abc%zdef", "%(k)y", "%\n", "%é" if not bytes_mode else "%~"]
     for _ in range(n):
         out.append("".join(rng.choice(alpha) for _ in range(rng.randint(1, 8))))
     return out
